@@ -1,10 +1,69 @@
-(* C12 — property theorems only. *)
-From FB Require Import C12.Model C12.Theory.
+(* C12 — property theorems only.  Each is closed by [exact <lemma>] and followed by
+   Print Assumptions; the statements are pinned here so they cannot be quietly weakened. *)
+From FB Require Import C12.Model C12.TheoryTree C12.TheoryOrd C12.TheoryDet C12.TheoryPlace C12.TheoryTok
+  C12.TheoryRT C12.Theory.
+From Coq Require Import Permutation Sorted.
 
-Theorem C12_example :
-  match write_all ex_classes with
-  | Ok t => match read_all t with Ok r => length r = 3%nat | Err => False end
-  | Err => False
-  end.
-Proof. exact ex_write_read. Qed.
-Print Assumptions C12_example.
+(* Th 1: writing a mapping set that satisfies the (decidable) hypotheses as one Enigma stream and
+   reading it back succeeds and yields the same classes under the same source keys with the same
+   names, comments, fields, methods and parameters — up to insertion order, constructors unnamed,
+   parameters without source name *)
+Theorem C12_read_write_all : forall M, enigma_okb M = true ->
+  exists text back, write_all M = Ok text /\ read_all text = Ok back /\ classes_sim back (enigma_norm M).
+Proof. exact read_write_all. Qed.
+Print Assumptions C12_read_write_all.
+
+(* the same through a directory (one file per parent-free class, read back in sorted path order) *)
+Theorem C12_read_write_dir : forall M, enigma_okb M = true -> dir_okb M = true ->
+  exists d back, write_dir M = Ok d /\ read_dir d = Ok back /\ classes_sim back (enigma_norm M).
+Proof. exact read_write_dir. Qed.
+Print Assumptions C12_read_write_dir.
+
+(* Th 5: directory and stream hold the same mappings *)
+Theorem C12_dir_equiv : forall M, enigma_okb M = true -> dir_okb M = true ->
+  exists text d a b, write_all M = Ok text /\ write_dir M = Ok d /\ read_all text = Ok a /\ read_dir d = Ok b
+                     /\ classes_sim a (enigma_norm M) /\ classes_sim b (enigma_norm M).
+Proof. exact dir_equiv. Qed.
+Print Assumptions C12_dir_equiv.
+
+(* Th 2: every class lands in exactly one file, exactly once — whenever figure_out_files succeeds *)
+Theorem C12_one_file : forall M fs, keys_nodup M -> files M = Ok fs ->
+  exists nodes, file_nodes M fs = Ok nodes /\ Permutation M (map fst (concat nodes)).
+Proof. exact one_file. Qed.
+Print Assumptions C12_one_file.
+
+(* Th 3: nesting in the text mirrors source-name nesting: a class is written at the indentation
+   given by the number of ancestors reached by following parent names as long as they are in the set *)
+Theorem C12_nesting_mirrors : forall M fs nodes x dx, keys_nodup M -> files M = Ok fs -> file_nodes M fs = Ok nodes ->
+  In (x, dx) (concat nodes) -> dx = chain_depth M (cls_key x).
+Proof. exact nesting_mirrors. Qed.
+Print Assumptions C12_nesting_mirrors.
+
+(* Th 4: output is deterministic: any insertion order of classes, fields, methods and parameters
+   gives the same stream, the same directory and the same single files; files are sorted *)
+Theorem C12_write_deterministic : forall M M', keys_ok M -> classes_sim M M' ->
+  write_all M = write_all M' /\ write_dir M = write_dir M' /\ (forall name, write_one M name = write_one M' name).
+Proof. exact write_deterministic. Qed.
+Print Assumptions C12_write_deterministic.
+
+Theorem C12_files_sorted : forall M fs, files M = Ok fs ->
+  Sorted (fun a b => is_le (str_cmp (fst a) (fst b)) = true) fs.
+Proof. exact files_sorted. Qed.
+Print Assumptions C12_files_sorted.
+
+(* the fuel of the model's deque loop is never exhausted: it computes the pre-order of the tree *)
+Theorem C12_tree_fuel_suffices : forall M r, keys_nodup M -> In r M -> tree_nodes M r = Ok (T (bound M) M r 0).
+Proof. exact tree_nodes_T. Qed.
+Print Assumptions C12_tree_fuel_suffices.
+
+(* parameter indices: the decimal form parses back *)
+Theorem C12_index_roundtrip : forall n, n < usize_bound -> parse_usize (dec n) = Ok n /\ tokb (dec n) = true.
+Proof. exact parse_dec. Qed.
+Print Assumptions C12_index_roundtrip.
+
+(* non-vacuity: a set with a nested class, an orphan inner class, a class without target, a
+   constructor, a parameter with comment and source name, comments with blank lines, leading
+   spaces and `#` satisfies all hypotheses; its round trip is computed *)
+Theorem C12_examples : nonvacuous.
+Proof. exact nonvacuous_holds. Qed.
+Print Assumptions C12_examples.
